@@ -1,6 +1,6 @@
 (* ClassifyProgram.v — the symbol table of a whole program summarises the mentions of the script (property C03).
    From ClassifyFacts (combine maps summaries to summaries) to:
-     stmt_spec     the per-equation loop of parse_equation, including the FUNCTION branch under the guard fn_ok
+     stmt_spec     the per-equation loop of parse_equation (every non-verbatim term, FUNCTION terms included, is combined)
      program_spec  program_symbols p = Ret syms  ->  syms = values of a table d ++ verbatim blocks, d summarises the
                    mentions of p name by name, keys in order of first appearance; failures come with witnesses. *)
 From Coq Require Import String Ascii List Bool ZArith Lia.
@@ -76,15 +76,15 @@ Proof.
     right. exists (mkA t e c). split; [reflexivity|]. split; [exact Ety|]. split; reflexivity.
 Qed.
 
-(* the non-function, non-verbatim branch of the loop is one dict_combine *)
-Lemma eqgo_other e c t rest d fs : ttype t <> TVerbatim -> ttype t <> TFunction ->
+(* every non-verbatim term of the loop is one dict_combine (b45daa1: FUNCTION terms included) *)
+Lemma eqgo_other e c t rest d fs : ttype t <> TVerbatim ->
   equation_symbols_go e c (t :: rest) d fs =
   match dict_combine (tname t) (sym_of_term e c t) d with
   | Ret d' => equation_symbols_go e c rest d' fs
   | Raise x => Raise x
   end.
 Proof.
-  intros NV NF. cbn [equation_symbols_go]. unfold sym_of_term. destruct (ttype t); try congruence; reflexivity.
+  intros NV. cbn [equation_symbols_go]. unfold sym_of_term. destruct (ttype t); try congruence; reflexivity.
 Qed.
 
 Lemma eqgo_verbatim e c t rest d fs : ttype t = TVerbatim ->
@@ -95,52 +95,6 @@ Lemma Gof_app l1 l2 k a : Gof (l1 ++ l2) k a <-> Gof l1 k a \/ Gof l2 k a.
 Proof. unfold Gof. rewrite in_app_iff. tauto. Qed.
 Lemma Gof_single b k a : Gof [b] k a <-> (k = aname b /\ a = b).
 Proof. unfold Gof. cbn. split; [intros [[->|[]] <-]; auto|intros [-> ->]; auto]. Qed.
-
-Lemma tcompat_function a : tcompat a TFunction -> a = TFunction.
-Proof. apply tcompat_to_nonvariable. reflexivity. Qed.
-
-(* the FUNCTION branch, under the guard, is a dict_combine as well *)
-Lemma fn_branch e c t d fs (pre : list aterm) :
-  DInv d (Gof pre) ->
-  (forall x, mem_string x fs = true <-> exists a, In a pre /\ aname a = x /\ atype a = TFunction) ->
-  wf_term t = true -> ttype t = TFunction ->
-  existsb (nonfn_named (tname t)) (map a_term pre) = false ->
-  (forall a, In a pre -> symbol_term (a_term a) = true) ->
-  dict_combine (tname t) (sym_of_term e c t) d =
-  Ret (if mem_string (tname t) fs then d else dict_set (tname t) (sym_of_term e c t) d).
-Proof.
-  intros HD HF W Ety G HS. pose proof HD as (N & K & V).
-  assert (Ei : tindex t = None).
-  { unfold wf_term in W. rewrite Ety in W. cbn in W. destruct (tindex t); [discriminate|reflexivity]. }
-  assert (Es : sym_of_term e c t = mkSymbol (Some (tname t)) TFunction None None None None).
-  { unfold sym_of_term. rewrite Ety, Ei. reflexivity. }
-  assert (NoOther : forall a, In a pre -> aname a = tname t -> atype a = TFunction).
-  { intros a Ha Hn. destruct (type_eqb (atype a) TFunction) eqn:E; [apply type_eqb_eq; exact E|]. exfalso.
-    assert (X : existsb (nonfn_named (tname t)) (map a_term pre) = true).
-    { apply existsb_exists. exists (a_term a). split; [apply in_map; exact Ha|].
-      unfold nonfn_named, named. unfold aname in Hn. rewrite Hn, String.eqb_refl, (HS a Ha). unfold atype in E. rewrite E. reflexivity. }
-    congruence. }
-  unfold dict_combine. destruct (dict_get (tname t) d) as [v|] eqn:Eg.
-  - destruct (V _ _ Eg) as (Nv & Pv & _). destruct Pv as (Wv & Tv & (a0 & Sa0 & Ta0) & _ & _ & Ev).
-    assert (Tf : stype v = TFunction).
-    { destruct Sa0 as [I0 N0]. rewrite <- Ta0. apply NoOther; assumption. }
-    assert (M : mem_string (tname t) fs = true).
-    { apply HF. exists a0. destruct Sa0 as [I0 N0]. split; [exact I0|]. split; [exact N0|]. congruence. }
-    rewrite M. destruct (wf_symbol_inv v Wv) as [L1 L2]. rewrite Tf in L1, L2. cbn in L1, L2.
-    assert (Q : sequation v = None /\ scode v = None).
-    { destruct Ev as [Q|(a & Sa & Ta & _)]; [exact Q|]. exfalso. destruct Sa as [Ia Na].
-      rewrite (NoOther a Ia Na) in Ta. discriminate. }
-    destruct Q as [Q1 Q2].
-    assert (Ev' : v = mkSymbol (Some (tname t)) TFunction None None None None).
-    { clear - Nv Tf L1 L2 Q1 Q2. destruct v as [n ty lg ld eq cd]. cbn in *. subst.
-      destruct lg; [discriminate|]. destruct ld; [discriminate|]. reflexivity. }
-    rewrite Es, Ev'. cbn. rewrite <- Ev'. rewrite (dict_set_same _ _ _ Eg). reflexivity.
-  - assert (M : mem_string (tname t) fs = false).
-    { destruct (mem_string (tname t) fs) eqn:M; [|reflexivity]. exfalso.
-      apply HF in M. destruct M as (a & Ia & Na & _).
-      apply dict_get_none_keys in Eg. apply Eg. apply (K (tname t) a). split; assumption. }
-    rewrite M, Es. cbn. reflexivity.
-Qed.
 
 (* ---------- the per-equation loop ---------- *)
 Definition in_conflict (L : list aterm) (x : exn) : Prop :=
@@ -154,99 +108,40 @@ Qed.
 
 Lemma eqgo_spec e c ts : forall (pre : list aterm) d fs,
   DInv d (Gof pre) ->
-  (forall x, mem_string x fs = true <-> exists a, In a pre /\ aname a = x /\ atype a = TFunction) ->
-  (forall a, In a pre -> symbol_term (a_term a) = true) ->
   forallb wf_term ts = true ->
-  fn_ok (map a_term pre) ts = true ->
   match equation_symbols_go e c ts d fs with
   | Ret d' => DInv d' (Gof (pre ++ annotate e c ts)) /\
               dict_keys d' = fold_left add_new (map aname (annotate e c ts)) (dict_keys d)
   | Raise x => in_conflict (pre ++ annotate e c ts) x
   end.
 Proof.
-  induction ts as [|t rest IH]; intros pre d fs HD HF HS W G.
+  induction ts as [|t rest IH]; intros pre d fs HD W.
   - cbn. rewrite app_nil_r. split; [exact HD|reflexivity].
   - cbn [forallb] in W. apply andb_true_iff in W as [Wt Wr].
-    cbn [fn_ok] in G. apply andb_true_iff in G as [Gt Gr].
     destruct (type_eqb (ttype t) TVerbatim) eqn:Ev.
     + (* verbatim term: skipped *)
       apply type_eqb_eq in Ev. rewrite (eqgo_verbatim e c t rest d fs Ev).
       assert (A : annotate e c (t :: rest) = annotate e c rest).
       { assert (ST : symbol_term t = false) by (unfold symbol_term; rewrite Ev; reflexivity).
         unfold annotate. cbn [filter]. rewrite ST. reflexivity. }
-      rewrite A. apply IH; try assumption.
-      (* the guard only looks at symbol terms of the prefix *)
-      clear - Gr Ev. revert Gr. generalize (map a_term pre). intros l.
-      assert (X : forall r l1 l2, (forall x, existsb (nonfn_named x) l1 = existsb (nonfn_named x) l2) ->
-                  fn_ok l1 r = fn_ok l2 r).
-      { induction r as [|u r IHr]; intros l1 l2 H; cbn [fn_ok]; [reflexivity|].
-        rewrite (H (tname u)). f_equal. apply IHr. intros x. rewrite !existsb_app, H. reflexivity. }
-      intros Gr. rewrite <- Gr. apply X. intros x. rewrite existsb_app. cbn [existsb].
-      assert (Z : nonfn_named x t = false).
-      { unfold nonfn_named, symbol_term. rewrite Ev. cbn. rewrite andb_false_r. reflexivity. }
-      rewrite Z, !orb_false_r. reflexivity.
+      rewrite A. apply IH; assumption.
     + assert (NV : ttype t <> TVerbatim).
       { intros E. apply type_eqb_eq in E. congruence. }
       assert (ST : symbol_term t = true) by (unfold symbol_term; rewrite Ev; reflexivity).
       assert (A : annotate e c (t :: rest) = mkA t e c :: annotate e c rest).
       { unfold annotate. cbn [filter]. rewrite ST. reflexivity. }
-      rewrite A.
-      assert (GT : ttype t = TFunction -> existsb (nonfn_named (tname t)) (map a_term pre) = false).
-      { intros E. rewrite E in Gt. apply negb_true_iff. exact Gt. }
-      assert (STEP : equation_symbols_go e c (t :: rest) d fs =
-                     match dict_combine (tname t) (sym_of_term e c t) d with
-                     | Ret d' => equation_symbols_go e c rest d'
-                                   (if type_eqb (ttype t) TFunction then (if mem_string (tname t) fs then fs else tname t :: fs) else fs)
-                     | Raise x => Raise x
-                     end).
-      { destruct (type_eqb (ttype t) TFunction) eqn:Ef.
-        - apply type_eqb_eq in Ef.
-          rewrite (fn_branch e c t d fs pre HD HF Wt Ef (GT Ef) HS).
-          cbn [equation_symbols_go]. rewrite Ef.
-          assert (Ei : tindex t = None).
-          { unfold wf_term in Wt. rewrite Ef in Wt. cbn in Wt. destruct (tindex t); [discriminate|reflexivity]. }
-          unfold sym_of_term. rewrite Ef, Ei. destruct (mem_string (tname t) fs); reflexivity.
-        - apply eqgo_other; [exact NV|]. intros E. apply type_eqb_eq in E. congruence. }
-      rewrite STEP.
+      rewrite A, (eqgo_other e c t rest d fs NV).
       pose proof (dict_combine_step (tname t) (sym_of_term e c t) (fun a => a = mkA t e c) d (Gof pre) HD eq_refl
                     (sym_of_term_pre e c t Wt NV)) as St.
       destruct (dict_combine (tname t) (sym_of_term e c t) d) as [d1|x].
       * destruct St as [HD1 K1].
         assert (HD1' : DInv d1 (Gof (pre ++ [mkA t e c]))).
         { eapply DInv_ext; [|exact HD1]. intros k a. rewrite Gof_app, Gof_single. cbn. tauto. }
-        specialize (IH (pre ++ [mkA t e c])%list d1
-                       (if type_eqb (ttype t) TFunction then (if mem_string (tname t) fs then fs else tname t :: fs) else fs) HD1').
+        specialize (IH (pre ++ [mkA t e c])%list d1 fs HD1' Wr).
         rewrite <- app_assoc in IH. cbn [app] in IH.
-        assert (R : match equation_symbols_go e c rest d1
-                          (if type_eqb (ttype t) TFunction then if mem_string (tname t) fs then fs else tname t :: fs else fs) with
-                    | Ret d' => DInv d' (Gof (pre ++ mkA t e c :: annotate e c rest)) /\
-                                dict_keys d' = fold_left add_new (map aname (annotate e c rest)) (dict_keys d1)
-                    | Raise x => in_conflict (pre ++ mkA t e c :: annotate e c rest) x
-                    end).
-        { apply IH.
-          - (* the function list *)
-            intros x. destruct (type_eqb (ttype t) TFunction) eqn:Ef.
-            + apply type_eqb_eq in Ef. split.
-              * intros M. destruct (mem_string (tname t) fs) eqn:Mt.
-                -- apply HF in M. destruct M as (a & Ia & Na & Ta). exists a. split; [apply in_or_app; left; exact Ia|auto].
-                -- unfold mem_string in M. cbn [existsb] in M. apply orb_true_iff in M as [M|M].
-                   ++ apply String.eqb_eq in M. subst x. exists (mkA t e c). split; [apply in_or_app; right; left; reflexivity|].
-                      split; [reflexivity|exact Ef].
-                   ++ change (mem_string x fs = true) in M. apply HF in M. destruct M as (a & Ia & Na & Ta). exists a. split; [apply in_or_app; left; exact Ia|auto].
-              * intros (a & Ia & Na & Ta). apply in_app_or in Ia as [Ia|[<-|[]]].
-                -- assert (M : mem_string x fs = true) by (apply HF; eauto).
-                   destruct (mem_string (tname t) fs); [exact M|]. unfold mem_string in M |- *. cbn [existsb]. rewrite M. apply orb_true_r.
-                -- cbn in Na. subst x. destruct (mem_string (tname t) fs) eqn:Mt; [exact Mt|]. unfold mem_string. cbn [existsb]. rewrite String.eqb_refl. reflexivity.
-            + split.
-              * intros M. apply HF in M. destruct M as (a & Ia & Na & Ta). exists a. split; [apply in_or_app; left; exact Ia|auto].
-              * intros (a & Ia & Na & Ta). apply in_app_or in Ia as [Ia|[<-|[]]]; [apply HF; eauto|].
-                exfalso. unfold atype in Ta. cbn in Ta. rewrite Ta in Ef. discriminate.
-          - intros a Ia. apply in_app_or in Ia as [Ia|[<-|[]]]; [apply HS; exact Ia|exact ST].
-          - exact Wr.
-          - rewrite map_app. exact Gr. }
-        destruct (equation_symbols_go e c rest d1 _) as [d'|x].
-        -- destruct R as [R1 R2]. split; [exact R1|]. cbn [map fold_left]. rewrite R2, K1. reflexivity.
-        -- exact R.
+        destruct (equation_symbols_go e c rest d1 fs) as [d'|x].
+        -- destruct IH as [R1 R2]. split; [exact R1|]. cbn [map fold_left]. rewrite R2, K1. reflexivity.
+        -- exact IH.
       * (* the combine failed *)
         destruct St as [(-> & a & b & Ga & -> & Cl)|(-> & a & b & Ga & -> & Tt)]; [left|right]; (split; [reflexivity|]);
           exists a, (mkA t e c); destruct Ga as [Ia Na].
@@ -294,24 +189,21 @@ Qed.
 Lemma DInv_Gof_nil : DInv [] (Gof []).
 Proof. eapply DInv_ext; [|exact DInv_nil]. intros k a. unfold Gof. cbn. tauto. Qed.
 
-Lemma stmt_spec st : wf_stmt st = true -> stmt_fn_ok st = true ->
+Lemma stmt_spec st : wf_stmt st = true ->
   match stmt_symbols st with
   | Ret l => exists d, l = (dict_values d ++ stmt_verbatim st)%list /\ DInv d (Gof (stmt_amentions st)) /\
                        dict_keys d = dedup (map aname (stmt_amentions st))
   | Raise x => (x = ParserError /\ stmt_rejected st = true) \/ in_conflict (stmt_amentions st) x
   end.
 Proof.
-  destruct st as [l r e c|e c]; intros W G.
+  destruct st as [l r e c|e c]; intros W.
   - cbn [stmt_symbols stmt_rejected]. destruct (stmt_terms l r) as [ts|x] eqn:Et.
     + apply stmt_terms_ret in Et. subst ts.
-      cbn [wf_stmt] in W. apply andb_true_iff in W as [Wl Wr]. cbn [stmt_fn_ok] in G.
+      cbn [wf_stmt] in W. apply andb_true_iff in W as [Wl Wr].
       assert (Wt : forallb wf_term (map (replace_type TEndogenous) l ++ map (replace_type TExogenous) r) = true).
       { rewrite forallb_app. rewrite (forallb_map_replace TEndogenous l), (forallb_map_replace TExogenous r); auto; discriminate. }
-      assert (HF0 : forall x, mem_string x [] = true <-> exists a : aterm, In a [] /\ aname a = x /\ atype a = TFunction).
-      { intros x. cbn. split; [discriminate|intros (a & [] & _)]. }
-      assert (HS0 : forall a : aterm, In a [] -> symbol_term (a_term a) = true) by (intros a []).
       pose proof (eqgo_spec e c (map (replace_type TEndogenous) l ++ map (replace_type TExogenous) r) [] [] []
-                            DInv_Gof_nil HF0 HS0 Wt G) as S. cbn [map app] in S.
+                            DInv_Gof_nil Wt) as S. cbn [map app] in S.
       unfold equation_symbols. cbn [stmt_amentions stmt_all_terms].
       destruct (equation_symbols_go e c _ [] []) as [d|x].
       * destruct S as [S1 S2]. exists d. cbn [stmt_verbatim]. rewrite app_nil_r. split; [reflexivity|]. split; [exact S1|exact S2].
@@ -400,7 +292,7 @@ Qed.
 Lemma amentions_cons st p : amentions (st :: p) = (stmt_amentions st ++ amentions p)%list.
 Proof. reflexivity. Qed.
 
-Lemma program_items p : wf_program p = true -> fn_guard p = true ->
+Lemma program_items p : wf_program p = true ->
   match program_by_equation p with
   | Ret ls => exists gi : list (string * symbol * (aterm -> Prop)),
       Forall gitem_ok gi /\ map fst gi = named_items (concat ls) /\
@@ -411,14 +303,13 @@ Lemma program_items p : wf_program p = true -> fn_guard p = true ->
   | Raise x => (x = ParserError /\ existsb stmt_rejected p = true) \/ in_conflict (amentions p) x
   end.
 Proof.
-  induction p as [|st p IH]; intros W G.
+  induction p as [|st p IH]; intros W.
   - cbn. exists []. split; [constructor|]. split; [reflexivity|]. split; [|split; reflexivity].
     intros k a. unfold ghost_of, Gof. cbn. split; [intros (s & P & [] & _)|intros [[] _]].
   - cbn [wf_program forallb] in W. apply andb_true_iff in W as [Wst Wp].
-    cbn [fn_guard forallb] in G. apply andb_true_iff in G as [Gst Gp].
-    cbn [program_by_equation]. pose proof (stmt_spec st Wst Gst) as S.
+    cbn [program_by_equation]. pose proof (stmt_spec st Wst) as S.
     destruct (stmt_symbols st) as [l|x].
-    + destruct S as (d & -> & HD & Kd). specialize (IH Wp Gp).
+    + destruct S as (d & -> & HD & Kd). specialize (IH Wp).
       destruct (program_by_equation p) as [ls|x].
       * destruct IH as (gi & Ok & Fst & Gh & Keys & Vb).
         assert (Names : forall k v, In (k, v) d -> sname v = Some k).
@@ -441,14 +332,14 @@ Proof.
       eapply in_conflict_mono; [|exact C]. intros a I. rewrite amentions_cons. apply in_or_app. left; exact I.
 Qed.
 
-Theorem program_spec p : wf_program p = true -> fn_guard p = true ->
+Theorem program_spec p : wf_program p = true ->
   match program_symbols p with
   | Ret syms => exists d, syms = (dict_values d ++ verbatim_blocks p)%list /\ DInv d (Gof (amentions p)) /\
                           dict_keys d = dedup (map aname (amentions p))
   | Raise x => (x = ParserError /\ existsb stmt_rejected p = true) \/ in_conflict (amentions p) x
   end.
 Proof.
-  intros W G. unfold program_symbols. pose proof (program_items p W G) as S.
+  intros W. unfold program_symbols. pose proof (program_items p W) as S.
   destruct (program_by_equation p) as [ls|x]; [|exact S].
   destruct S as (gi & Ok & Fst & Gh & Keys & Vb).
   unfold merge_symbols. rewrite merge_go_feed, <- Fst.
